@@ -1,9 +1,9 @@
 import SaphyrVerif.Spec.EmitReader
 /-!
 C13 proof machinery, part 1: the proved FRAGMENT of the value grammar (`inFragP P`: over a class `P` of
-strings) and a flag-free structural LAYOUT function (`layRoot T`: over token functions `T` that give the text
-written for a string value / string key / variant name / unit variant) describing the lines the emitter
-produces for it.  `Lemmas/C13_Emit.lean` proves that the emitter state machine produces exactly this layout
+strings) and a flag-free structural LAYOUT function (`layRoot T`: over texts `T` that give what is
+written for a string leaf in a position — a token, or the header and the body lines of a block scalar — / for a
+string key / variant name / unit variant) describing the lines the emitter produces for it.  `Lemmas/C13_Emit.lean` proves that the emitter state machine produces exactly this layout
 (the emitter invariant) whenever the scalar-text functions satisfy the write contract for `P` and `T`;
 `Lemmas/C13_Read.lean` proves that the reference reader maps the layout back to `erase v` whenever the tokens
 satisfy the read contract.  Instances: the SAFE class (`Lemmas/C13_Safe.lean`, any scalar-text functions with
@@ -52,17 +52,63 @@ structure PlainOpts (o : Opts) : Prop extends FragOpts o where
   quoteAll : o.quoteAll = false
   tagged : o.taggedEnums = false
 
-/-- the scalar tokens of a layout: the text written for a string in value position, for a string
-key, for the name of a variant with data (the key of `Variant: payload`), for a unit variant in value
-position (enum name, variant name) -/
+/-- where a string leaf stands: right after `key:` of a mapping whose keys are at column `c`, right after `- ` /
+`? ` / `: ` of an entry whose indicator is at column `c`, or at the root of the document -/
+inductive StrPos where
+  | val (c : Nat)
+  | item (c : Nat)
+  | root
+deriving Repr, DecidableEq
+
+/-- the least indentation a node in this position may have (parent column + 1; 0 at the root) -/
+def StrPos.minIndent : StrPos → Nat
+  | .val c => c + 1
+  | .item c => c + 1
+  | .root => 0
+
+/-- the scalar texts of a layout: what is written for a string leaf — the text on the line of the leaf and
+the lines that follow it (none for a plain / quoted token; the body lines of a block scalar), given
+`indent_step` and the position —, for a string key, for the name of a variant with data (the key of
+`Variant: payload`), for a unit variant in value position (enum name, variant name; like a string leaf: text on
+the line, following lines) -/
 structure Toks where
-  str : List Char → List Char
+  strAt : Nat → StrPos → List Char → List Char × List Line
   key : List Char → List Char
   name : List Char → List Char
-  unit : List Char → List Char → List Char
+  unitAt : Nat → StrPos → List Char → List Char → List Char × List Line
+
+/-- the tokens when every string leaf and every unit variant is ONE token, the same in every position -/
+def Toks.ofStr (str key name : List Char → List Char) (unit : List Char → List Char → List Char) : Toks :=
+  ⟨fun _ _ s => (str s, []), key, name, fun _ _ e n => (unit e n, [])⟩
+
+/-- the text on the line of a string leaf at the root (for tokens made with `Toks.ofStr`: the token) -/
+def Toks.str (T : Toks) (s : List Char) : List Char := (T.strAt 2 .root s).1
+
+/-- the text on the line of a unit variant at the root (for tokens made with `Toks.ofStr`: the token) -/
+def Toks.unit (T : Toks) (e n : List Char) : List Char := (T.unitAt 2 .root e n).1
+
+/-- every string leaf and every unit variant is one token (no block scalars) -/
+def Toks.IsTok (T : Toks) : Prop :=
+  (∀ k pos s, T.strAt k pos s = (T.str s, [])) ∧ (∀ k pos e n, T.unitAt k pos e n = (T.unit e n, []))
+
+theorem Toks.ofStr_isTok (str key name : List Char → List Char) (unit : List Char → List Char → List Char) :
+    (Toks.ofStr str key name unit).IsTok := ⟨fun _ _ _ => rfl, fun _ _ _ _ => rfl⟩
+
+@[simp] theorem Toks.ofStr_str (str key name : List Char → List Char) (unit : List Char → List Char → List Char) (s : List Char) :
+    (Toks.ofStr str key name unit).str s = str s := rfl
+@[simp] theorem Toks.ofStr_strAt (str key name : List Char → List Char) (unit : List Char → List Char → List Char) (k : Nat)
+    (pos : StrPos) (s : List Char) : (Toks.ofStr str key name unit).strAt k pos s = (str s, []) := rfl
+@[simp] theorem Toks.ofStr_key (str key name : List Char → List Char) (unit : List Char → List Char → List Char) :
+    (Toks.ofStr str key name unit).key = key := rfl
+@[simp] theorem Toks.ofStr_name (str key name : List Char → List Char) (unit : List Char → List Char → List Char) :
+    (Toks.ofStr str key name unit).name = name := rfl
+@[simp] theorem Toks.ofStr_unit (str key name : List Char → List Char) (unit : List Char → List Char → List Char) (e n : List Char) :
+    (Toks.ofStr str key name unit).unit e n = unit e n := rfl
+@[simp] theorem Toks.ofStr_unitAt (str key name : List Char → List Char) (unit : List Char → List Char → List Char) (k : Nat)
+    (pos : StrPos) (e n : List Char) : (Toks.ofStr str key name unit).unitAt k pos e n = (unit e n, []) := rfl
 
 /-- every string is written as itself -/
-def plainToks : Toks := ⟨fun s => s, fun s => s, fun s => s, fun _ n => n⟩
+def plainToks : Toks := Toks.ofStr (fun s => s) (fun s => s) (fun s => s) (fun _ n => n)
 
 /-- the classes of strings a fragment admits as string leaves, as string keys, as names of variants
 with data, as (enum name, variant name) of unit variants -/
@@ -89,14 +135,12 @@ def safePred (o : Opts) : LeafPred :=
   ⟨fun s => isSafeStr s && s.length ≤ o.foldedWrapCol, isSafeStr, isSafeStr,
    fun e n => isSafeStr n && n.length ≤ o.foldedWrapCol && (!o.taggedEnums || tagNameOk e)⟩
 
-/-- the scalar token of a fragment leaf -/
+/-- the scalar token of a fragment leaf other than a string / a unit variant -/
 def leafTok (T : Toks) : SVal → Option (List Char)
   | .unit => some "null".toList
   | .none => some "null".toList
   | .bool b => some (if b then "true".toList else "false".toList)
   | .int i => some (intText i)
-  | .str s => some (T.str s)
-  | .unitVariant e n => some (T.unit e n)
   | _ => none
 
 def keyOf : SVal → Option (List Char)
@@ -212,8 +256,8 @@ def layVal (T : Toks) (k : Nat) (cp inMap : Bool) (c : Nat) (lvb : Bool) : SVal 
   | .none => (' ' :: "null".toList, [], false)
   | .bool b => (' ' :: (if b then "true".toList else "false".toList), [], false)
   | .int i => (' ' :: intText i, [], false)
-  | .str s => (' ' :: T.str s, [], false)
-  | .unitVariant e n => (' ' :: T.unit e n, [], false)
+  | .str s => (' ' :: (T.strAt k (.val c) s).1, (T.strAt k (.val c) s).2, false)
+  | .unitVariant e n => (' ' :: (T.unitAt k (.val c) e n).1, (T.unitAt k (.val c) e n).2, false)
   | _ => ([], [], lvb)
 /-- value right after `- ` of a sequence whose dashes are at column `c` -/
 def layItem (T : Toks) (k : Nat) (cp : Bool) (c : Nat) (lvb : Bool) : SVal → List Char × List Line × Bool
@@ -230,8 +274,8 @@ def layItem (T : Toks) (k : Nat) (cp : Bool) (c : Nat) (lvb : Bool) : SVal → L
   | .none => ("null".toList, [], false)
   | .bool b => ((if b then "true".toList else "false".toList), [], false)
   | .int i => (intText i, [], false)
-  | .str s => (T.str s, [], false)
-  | .unitVariant e n => (T.unit e n, [], false)
+  | .str s => ((T.strAt k (.item c) s).1, (T.strAt k (.item c) s).2, false)
+  | .unitVariant e n => ((T.unitAt k (.item c) e n).1, (T.unitAt k (.item c) e n).2, false)
   | _ => ([], [], lvb)
 /-- a sequence right after `- ` (at column `c`): its first item stays on the line, all its dashes at `c + 2` -/
 def laySeqItem (T : Toks) (k : Nat) (cp : Bool) (c : Nat) (lvb : Bool) : List SVal → List Char × List Line × Bool
@@ -296,6 +340,8 @@ def layRoot (T : Toks) (k : Nat) (cp : Bool) : SVal → List Line
   | .structVariant n fs =>
     let r := mapValOf k false fs.isEmpty (layEntries T k cp k false fs).1
     ⟨0, T.name n ++ [':'] ++ r.1⟩ :: r.2.1
+  | .str s => ⟨0, (T.strAt k .root s).1⟩ :: (T.strAt k .root s).2
+  | .unitVariant e n => ⟨0, (T.unitAt k .root e n).1⟩ :: (T.unitAt k .root e n).2
   | v => match leafTok T v with
     | some tok => [⟨0, tok⟩]
     | none => []
